@@ -7,7 +7,7 @@ from __future__ import annotations
 
 import ast
 
-from sa.model import Func, Program, norm, walk_no_nested
+from sa.model import Func, Program, alpha, norm, walk_no_nested
 from sa.tables.grammar import ARGS_PRODUCTION, GENERIC_CLASSES, NIX_KEYWORDS, PRODUCTIONS, SCENARIOS
 from sa.util import parent_map
 
@@ -277,23 +277,29 @@ def analyse_class(prog: Program, cname: str):
         if prog.has_func(helper):
             hf = prog.func(helper)
             extra = dict(extra)
-            if helper == "_collect_colon_trivia" and _args_end_idiom(hf):
-                extra["args_end_node"] = "ARGS"
+            if helper == "_collect_colon_trivia":
+                nm = _args_end_idiom(hf)
+                if nm:
+                    extra[nm] = "ARGS"
             ga.scan(hf, extra)
             attach_guards(ga, hf)
     return ga
 
 
-def _args_end_idiom(f: Func) -> bool:
-    """`for child in node.children: if child == colon_node: break; if child.type != "comment": args_end_node = child`:
-    the last non-comment child before the colon, i.e. the end of the parameter part"""
+def _args_end_idiom(f: Func) -> str | None:
+    """`for child in node.children: if child == colon: break; if child.type != "comment": X = child`:
+    the last non-comment child before the colon, i.e. the end of the parameter part.  Returns X's name."""
     for n in ast.walk(f.node):
-        if isinstance(n, ast.For) and norm(n.iter) == "node.children":
-            txt = norm(n)
-            if "if child == colon_node: break" in txt.replace("\n", " ").replace("    ", " ") or ("child == colon_node" in txt and "break" in txt):
-                if "child.type != 'comment'" in txt and "args_end_node = child" in txt:
-                    return True
-    return False
+        if isinstance(n, ast.For) and norm(n.iter).endswith(".children") and isinstance(n.target, ast.Name):
+            lv = n.target.id
+            has_break = any(isinstance(s, ast.If) and isinstance(s.test, ast.Compare) and norm(s.test.left) == lv
+                            and any(isinstance(b, ast.Break) for b in s.body) for s in n.body)
+            for s in n.body:
+                if isinstance(s, ast.If) and norm(s.test) == f"{lv}.type != 'comment'":
+                    for b in s.body:
+                        if isinstance(b, ast.Assign) and norm(b.value) == lv and isinstance(b.targets[0], ast.Name) and has_break:
+                            return b.targets[0].id
+    return None
 
 
 def coverage(ga: GapAnalysis, cname: str):
